@@ -12,8 +12,6 @@ INVARIANT ArrayPlacement
 INVARIANT IncRange
 INVARIANT SupportGrouping
 INVARIANT SameSupportNoIncongruence
-INVARIANT BelowThresholdChainsIgnored
-INVARIANT D8ReadingSameAgreement
 PROPERTY ShuffleKeepsSummary
 INVARIANT Dump
 CHECK_DEADLOCK FALSE
